@@ -408,4 +408,62 @@ theorem loadSkip_build (fs : List Flow) : ∀ (ft : FTree),
       simp only [List.zip_cons_cons, Option.isNone_none, List.filter_cons_of_pos, List.map_cons, buildFrom, ha]
       exact this
 
+/-! ### the grouping key of quota system flows -/
+
+/-- Two filters agree on everything `Filter.ToComparable` looks at, up to the order inside each list. -/
+structure SameKey (f g : Flow) : Prop where
+  parts : f.parts = g.parts
+  methods : f.methods.Perm g.methods
+  headers : f.headers.Perm g.headers
+  query : f.query.Perm g.query
+  statuses : f.statuses.Perm g.statuses
+
+theorem perm_isEmpty {α : Type} {l l' : List α} (h : l.Perm l') : l.isEmpty = l'.isEmpty := by
+  have := h.length_eq
+  cases l <;> cases l' <;> simp_all
+
+theorem perm_contains {α : Type} [BEq α] [LawfulBEq α] {l l' : List α} (h : l.Perm l') (a : α) :
+    l.contains a = l'.contains a := by
+  rw [Bool.eq_iff_iff, List.contains_iff_mem, List.contains_iff_mem]
+  exact h.mem_iff
+
+theorem perm_all {α : Type} {l l' : List α} (h : l.Perm l') (p : α → Bool) : l.all p = l'.all p := by
+  rw [Bool.eq_iff_iff, List.all_eq_true, List.all_eq_true]
+  exact ⟨fun hh a ha => hh a (h.mem_iff.mpr ha), fun hh a ha => hh a (h.mem_iff.mp ha)⟩
+
+theorem perm_any {α : Type} {l l' : List α} (h : l.Perm l') (p : α → Bool) : l.any p = l'.any p := by
+  rw [Bool.eq_iff_iff, List.any_eq_true, List.any_eq_true]
+  exact ⟨fun ⟨a, ha, hp⟩ => ⟨a, h.mem_iff.mp ha, hp⟩, fun ⟨a, ha, hp⟩ => ⟨a, h.mem_iff.mpr ha, hp⟩⟩
+
+theorem sameKey_filterOk {f g : Flow} (h : SameKey f g) (t : Txn) : filterOk f t = filterOk g t := by
+  unfold filterOk methodOk statusOk headersOk queryOk
+  rw [perm_isEmpty h.methods, perm_contains h.methods, perm_isEmpty h.statuses, perm_contains h.statuses,
+    perm_all h.query, perm_all h.headers]
+  congr 3
+  congr 1
+  funext kv
+  rw [perm_any h.headers]
+
+theorem insertBy_perm {α : Type} (le : α → α → Bool) (a : α) (l : List α) : (insertBy le a l).Perm (a :: l) := by
+  induction l with
+  | nil => exact List.Perm.refl _
+  | cons b l ih =>
+    unfold insertBy
+    split
+    · exact List.Perm.refl _
+    · exact (List.Perm.cons b ih).trans (List.Perm.swap a b l)
+
+theorem sortBy_perm {α : Type} (le : α → α → Bool) (l : List α) : (sortBy le l).Perm l := by
+  induction l with
+  | nil => exact List.Perm.refl _
+  | cons a l ih => exact (insertBy_perm le a _).trans (List.Perm.cons a ih)
+
+/-- sorted token lists are equal only for permutations of the same tokens -/
+theorem perm_of_sortBy_eq {α : Type} {le : α → α → Bool} {l l' : List α} (h : sortBy le l = sortBy le l') :
+    l.Perm l' := by
+  have h1 := sortBy_perm le l
+  have h2 := sortBy_perm le l'
+  rw [h] at h1
+  exact h1.symm.trans h2
+
 end LunarVerif.C03
